@@ -700,6 +700,27 @@ def _tag_atoms(p, env):
                 for x, y in ((a, b), (b, a)):
                     if x[0] == 'call' and x[1] == 'object::Object::tag' and y[0] == 'enum':
                         out.append((canon(env, x[2][0]), y[2], equal))
+            elif v[0] == 'binop' and v[1] in ('Eq', 'Ne') and truth(c) is not None:
+                # the tag test written out: `self.0 as usize & TAG_MASK == Type::Float as usize`
+                try:
+                    import mirlib as _ml
+                    F_ = _CTX[0].facts() if _CTX[0] is not None else _ml.CURRENT_FACTS
+                    tm = (F_.consts.get('object::TAG_MASK') or {}).get('int')
+                    names_ = {d_: n_ for n_, d_ in F_.enum_variants(TYPE)}
+                    for x, y in ((v[2], v[3]), (v[3], v[2])):
+                        y = strip(y)
+                        x = strip(x)
+                        if tm is None or y[0] != 'int' or y[1] not in names_ or not (isinstance(x, tuple) and x and x[0] == 'binop' and x[1] == 'BitAnd'):
+                            continue
+                        for w, m_ in ((x[2], x[3]), (x[3], x[2])):
+                            if strip(m_) == ('int', tm) or (strip(m_)[0] == 'int' and strip(m_)[1] == tm):
+                                w = strip(w)
+                                while isinstance(w, tuple) and w and w[0] == 'cast':
+                                    w = w[1]
+                                if isinstance(w, tuple) and w and w[0] == 'field' and w[2] == '0':
+                                    out.append((canon(env, w[1]), names_[y[1]], bool(truth(c)) == (v[1] == 'Eq')))
+                except Exception:
+                    pass
             elif v[0] == 'call' and v[1] == 'object::Object::is_heap_allocated' and len(v[2]) == 1 and truth(c) is not None and _CTX[0] is not None:
                 # `if !self.is_heap_allocated() { return }`: the types that live in a heap box / those that do not
                 try:
